@@ -252,6 +252,8 @@ def body(chk):
     # CLI options installed through Cucumber::with_cli() survive the builder methods called afterwards
     from checks import cucumber_builders
     cucumber_builders.obligations(chk, 'C18')
+    from checks import runner_builders
+    runner_builders.obligations(chk, 'C18', fields=('retries', 'retry_after', 'max_concurrent_scenarios', 'fail_fast'))
     # between the resolver and the scheduler: Features::insert stores, per scenario, what the resolver said for it in its own rule
     from checks import insert_retry
     insert_retry.obligations(chk, 'C18')
